@@ -348,6 +348,31 @@ def step (w : W) (o : Op) : W × String :=
     let t1 := rews.zipIdx.map (fun (r, i) => sysTxText (.reward (n0 + i) r.id (fitLeft 20 r.recipient) r.goat r.gas))
     let t2 := unls.zipIdx.map (fun (u, i) => sysTxText (.unlock (n0 + rews.length + i) u.id (fitLeft 20 u.recipient) (fitLeft 20 u.token) u.amount))
     ((if o.str "commit" == "0" then w else { w with lock := lk }), "=> ok txs=" ++ lst (t1 ++ t2))
+  | "btc.validateparams" =>
+    let p : Bitcoin.Params := { minDeposit := o.nat "min", confirmations := o.nat "conf", taxRate := o.nat "rate", maxTax := o.nat "max", magic := o.bytes "magic" }
+    (w, if o.str "net" != "regtest" && o.str "net" != "mainnet" && o.str "net" != "testnet3" && o.str "net" != "signet" then "=> err"
+        else if Bitcoin.paramsValidate p then "=> ok" else "=> err")
+  | "addr.decode" =>
+    let a := String.fromUTF8! (ByteArray.mk (o.bytes "str").toArray)
+    (w, match bc.decodeAddr a with
+        | some sc => "=> " ++ hexD sc
+        | none => "=> x")
+  | "addr.deposit" =>
+    let pk := pubKeyOf (o.str "kind") (o.bytes "key")
+    let pk2 := pubKeyOf (o.str "kind2") (o.bytes "key2")
+    let evm := o.bytes "evm"
+    let evm2 := o.bytes "evm2"
+    let magic := o.bytes "magic"
+    if o.str "version" == "0" then
+      match Bitcoin.depositOutputV0 bc pk evm with
+      | none => (w, "=> none")
+      | some sc =>
+        (w, s!"=> {hexD sc} same={boolStr (Bitcoin.verifyDepositScriptV0 bc pk evm sc)} otherkey={boolStr (Bitcoin.verifyDepositScriptV0 bc pk2 evm sc)} otherevm={boolStr (Bitcoin.verifyDepositScriptV0 bc pk evm2 sc)}")
+    else
+      match Bitcoin.depositOutputsV1 bc pk magic evm with
+      | none => (w, "=> none")
+      | some (o0, o1) =>
+        (w, s!"=> {hexD o0}+{hexD o1} same={boolStr (Bitcoin.verifyDepositScriptV1 bc pk magic evm o0 o1)} otherkey={boolStr (Bitcoin.verifyDepositScriptV1 bc pk2 magic evm o0 o1)} otherevm={boolStr (Bitcoin.verifyDepositScriptV1 bc pk magic evm2 o0 o1)}")
   | "merkle.verify" =>
     let r := Merkle.verify Sha256.dsha256 (o.bytes "txid") (o.bytes "root") (o.bytes "proof") (o.nat "index")
     (w, s!"=> {boolStr r}")
